@@ -55,6 +55,8 @@ def sub_modules(m, cfg):
 def build(cfg):
     """cfg = dict(method, full_cost, train, gumbel, spec0, sub, mixed) -> (wrapper, x)"""
     m, x = _build(cfg)
+    if cfg.get('qmoved'):
+        move_quantizer_params(m)
     if cfg.get('mixed'):
         for mod in sub_modules(m, cfg):
             mod.training = not cfg['train']        # frozen BatchNorm etc. / the opposite in eval mode
@@ -73,6 +75,23 @@ def _build(cfg):
     arch = cfg.get('arch', 'base')
     m, x = _build_zoo(cfg, arch) if arch != 'base' else _build_base(cfg)
     return m, x
+
+
+QVALS = (1e-5, 2.5, -0.5, 0.0, 7.0, 0.5, 10.0)
+
+
+def move_quantizer_params(m):
+    """what an optimizer does to the learnable parameters of the quantizers during a search: the clipping bounds (PACT clip_val,
+    any other *clip* / scale-like quantizer parameter) leave their construction values -- ordinary ones (0.5 .. 10) but also tiny,
+    zero and negative ones, which a large step can reach"""
+    torch, _ = T()
+    i = 0
+    with torch.no_grad():
+        for k, p in m.named_parameters():
+            if k.endswith('clip_val'):
+                p.fill_(QVALS[i % len(QVALS)])
+                i += 1
+    return i
 
 
 def remember_user_model(m, net):
@@ -388,6 +407,7 @@ def fingerprint(m, x, deep=True, cfg=None):
     fp = {
         'params': hj([(k, th(v)) for k, v in sd.items() if k in pnames]),
         'buffers': hj([(k, th(v)) for k, v in sd.items() if k not in pnames]),
+        'tensors_v': {k: th(v)[:8] for k, v in sd.items()},
         'train_wrapper': w, 'train_seed': s, 'train_leaves_all': all(lv), 'train_leaves_any': any(lv),
         'train_sub_all': all(sv) if sv else None, 'train_sub_any': any(sv) if sv else None,
         'flags': hj(fl),
@@ -472,6 +492,8 @@ def apply_op(m, x, op, method):
                 loss = loss + 1e-4 * c
             except Exception:
                 pass
+            if not loss.requires_grad:      # nothing trainable reaches the loss (e.g. NAS-only training with a hard, gradient-free selection)
+                return th(y)
             loss.backward()
             with torch.no_grad():
                 for p in ps:
